@@ -769,7 +769,9 @@ def judge(case, obs, info, deep=False):
     refs = list(ref) if isinstance(ref, (tuple, list)) else [ref]
     if len(refs) != len(outs) or any(tuple(np.shape(r)) != tuple(o.shape) or not np.array_equal(np.asarray(r, dtype=np.float64), np.asarray(o, dtype=np.float64)) for r, o in zip(refs, outs)):
         return {"kind": "forward-value", "expected": [np.asarray(r).tolist() for r in refs], "observed": [o.tolist() for o in outs]}
-    if case["op"] not in ("ov",) or True:
+    np_ = np
+    torch_comparable = not (case["op"] == "linear" and (len(arrays) > 2 and arrays[2].ndim != 1 or arrays[0].ndim < 2))   # torch documents bias (out,) and treats other ranks differently
+    if torch_comparable:
         try:
             tref = ref_forward(case, [_torch().tensor(x) for x in arrays], torch_mode=True)
             trefs = list(tref) if isinstance(tref, (tuple, list)) else [tref]
@@ -984,6 +986,33 @@ def part_divq(ctx, dat):
         ctx.witness("tensor.operators/forward", "division value", inp, exp, obs)
 
 
+def part_scalar_dtype(ctx):
+    """Python-scalar operands take the tensor's floating dtype: for a float64 tensor and a non-dyadic scalar the result is
+    NumPy's float64 result (bit-exact for + - *, to 4 ulp for the forms computed through c**-1 / t**-1)"""
+    impl = _impl()
+    np, sg = impl.np, impl.synapgrad
+    x = np.array([1.0, 3.0, -7.0, 0.3, 1e3], dtype=np.float64)
+    forms = [("t+c", lambda t, c: t + c, True), ("c+t", lambda t, c: c + t, True), ("t-c", lambda t, c: t - c, True), ("c-t", lambda t, c: c - t, True),
+             ("t*c", lambda t, c: t * c, True), ("c*t", lambda t, c: c * t, True), ("t/c", lambda t, c: t / c, False), ("c/t", lambda t, c: c / t, False)]
+    viol = []
+    n = 0
+    for dt in (np.float64, np.float32):
+        xx = x.astype(dt)
+        eps = np.finfo(dt).eps
+        for c in (0.1, 3.0, 1.0 / 3.0, 7):
+            for name, f, exact in forms:
+                n += 1
+                r = f(sg.Tensor(xx.copy()), c).data
+                ref = f(xx.copy(), dt(c) if dt is np.float32 else c)
+                ok = r.dtype == dt and (np.array_equal(r, ref) if exact else bool(np.all(np.abs(r - ref) <= 4 * eps * np.abs(ref))))
+                if not ok:
+                    viol.append(({"form": name, "t": xx.tolist(), "dtype": str(np.dtype(dt)), "c": c}, {"dtype": str(np.dtype(dt)), "values": ref.tolist()}, {"dtype": str(r.dtype), "values": r.tolist()}))
+    ctx.extra["scalar_dtype_cases"] = n
+    ctx.notes.append("scalar-operand oracle (implementation only): %d (form, dtype, scalar) combinations against NumPy in the tensor's dtype" % n)
+    for inp, exp, obs in viol[:1]:
+        ctx.witness("tensor.operators/forward", "python scalar operand rounded to another dtype", inp, exp, obs)
+
+
 def part_c10(ctx, dat):
     """dtype and shape of every .grad equal to the tensor's, f32/f64 mixes, upstream gradient of either dtype"""
     impl = _impl()
@@ -1122,8 +1151,8 @@ STREAMS = [
     ("same-operand", gen_same_operand, False, "x+x, x*x, x@x, addmm(x,x,x), linear(x,x[,x]), concat/stack([x,x[,x]]): one buffer receives every contribution"),
 ]
 BY_PID = {"C01": ["add", "mul", "reductions", "matmul", "addmm-linear", "concat-stack-unbind", "overloads", "same-operand", "unb"],
-          "C05": ["add", "reductions", "matmul", "addmm-linear", "concat-stack-unbind", "overloads", "divq", "dimtypes"],
-          "C10": ["unb", "c10", "mul"],
+          "C05": ["add", "reductions", "matmul", "addmm-linear", "concat-stack-unbind", "overloads", "divq", "dimtypes", "scalardtype"],
+          "C10": ["unb", "c10", "mul", "scalardtype"],
           "C14": ["c14", "addmm-linear", "divq", "overloads"]}
 
 
@@ -1139,7 +1168,7 @@ def run_part(ctx, parts=None, as_pid=None):
         ok, log = common.coq_make(["Base/Cmp.vo"] + MODEL_VO)
         if not ok:
             ctx.broken.append({"kind": "proof", "what": "build of the E2 models failed", "detail": log[-800:]})
-    parts = parts or BY_PID.get(pid) or [s[0] for s in STREAMS] + ["unb", "divq", "c10", "c14", "dimtypes"]
+    parts = parts or BY_PID.get(pid) or [s[0] for s in STREAMS] + ["unb", "divq", "c10", "c14", "dimtypes", "scalardtype"]
     verdicts = []
     for name, gen, exhaustive, note in STREAMS:
         if name in parts:
@@ -1156,6 +1185,8 @@ def run_part(ctx, parts=None, as_pid=None):
         part_c14(ctx, dat)
     if "dimtypes" in parts:
         part_dim_types(ctx)
+    if "scalardtype" in parts:
+        part_scalar_dtype(ctx)
     report(ctx, verdicts, pid)
     ctx.extra.setdefault("algebra_oracle_verdicts", 0)
     ctx.extra["algebra_oracle_verdicts"] += len(verdicts)
